@@ -385,3 +385,36 @@ func (w *World) callersOf(fn *ssa.Function) []*ssa.Function {
 	}
 	return out
 }
+
+// funcFamily: root plus the unexported functions and methods of its package that it reaches through static calls
+// (three levels): the places a refactoring may have moved parts of root's body to.
+func (w *World) funcFamily(root *ssa.Function) []*ssa.Function {
+	out := []*ssa.Function{root}
+	seen := map[*ssa.Function]bool{root: true}
+	var walk func(fn *ssa.Function, depth int)
+	walk = func(fn *ssa.Function, depth int) {
+		if depth > 3 {
+			return
+		}
+		for _, b := range fn.Blocks {
+			for _, in := range b.Instrs {
+				ci, ok := in.(ssa.CallInstruction)
+				if !ok {
+					continue
+				}
+				callee := ci.Common().StaticCallee()
+				if callee == nil || seen[callee] || callee.Pkg == nil || callee.Pkg != root.Pkg || len(callee.Blocks) == 0 {
+					continue
+				}
+				if ast.IsExported(callee.Name()) && callee.Parent() == nil {
+					continue
+				}
+				seen[callee] = true
+				out = append(out, callee)
+				walk(callee, depth+1)
+			}
+		}
+	}
+	walk(root, 0)
+	return out
+}
